@@ -8,3 +8,4 @@ pub mod cmap;
 pub mod glyf;
 pub mod type2;
 pub mod sfnt_validate;
+pub mod otl_gsub;
